@@ -165,32 +165,58 @@ def _scalar_const(p) -> complex | None:
     return None
 
 
+class _Params:
+    """The parameter vector itself (passed on to a helper)."""
+
+
+PARAMS = _Params()
+
+
 class Reader:
-    def __init__(self, fn: ast.AST, param: str = 'params'):
+    def __init__(self, fn: ast.AST, param: str = 'params',
+                 helpers: dict[str, ast.AST] | None = None,
+                 bound: dict[str, object] | None = None, depth: int = 0):
         self.param = param
-        self.defs: dict[str, ast.expr] = {}
-        multi = set()
+        self.helpers = helpers or {}
+        self.bound = bound or {}
+        self.depth = depth
+        # straight-line code: the statements are read in order, so a name
+        # assigned twice has, at each use, the value of the latest
+        # assignment; a statement outside the fragment only poisons the
+        # names it defines
+        self.env: dict[str, object] = {}
         for st in fn.body:  # type: ignore[attr-defined]
-            if isinstance(st, ast.Assign) and len(st.targets) == 1 and (
-                    isinstance(st.targets[0], ast.Name)):
-                k = st.targets[0].id
-                if k in self.defs:
-                    multi.add(k)
-                self.defs[k] = st.value
-        for k in multi:
-            self.defs[k] = None  # type: ignore[assignment]
-        self.memo: dict[str, object] = {}
+            if not (isinstance(st, ast.Assign) and len(st.targets) == 1):
+                continue
+            tg = st.targets[0]
+            if isinstance(tg, ast.Name):
+                try:
+                    self.env[tg.id] = self.ev(st.value)
+                except Unsupported as ex:
+                    self.env[tg.id] = ex
+            elif isinstance(tg, (ast.Tuple, ast.List)) and all(
+                    isinstance(x, ast.Name) for x in tg.elts):
+                try:
+                    v = self.ev(st.value)
+                    if not isinstance(v, list) or len(v) != len(tg.elts):
+                        raise Unsupported('unpacking of a non-sequence')
+                    for x, xv in zip(tg.elts, v):
+                        self.env[x.id] = xv
+                except Unsupported as ex:
+                    for x in tg.elts:
+                        self.env[x.id] = ex
 
     def name(self, k: str):
-        if k in self.memo:
-            return self.memo[k]
-        if k not in self.defs:
-            raise Unsupported(f'`{k}` is not a local temporary')
-        if self.defs[k] is None:
-            raise Unsupported(f'`{k}` is assigned more than once')
-        v = self.ev(self.defs[k])
-        self.memo[k] = v
-        return v
+        if k in self.env:
+            v = self.env[k]
+            if isinstance(v, Unsupported):
+                raise v
+            return v
+        if k in self.bound:
+            return self.bound[k]
+        if k == self.param:
+            return PARAMS
+        raise Unsupported(f'`{k}` is not a local temporary')
 
     def ev(self, e: ast.expr):
         if isinstance(e, ast.Constant):
@@ -208,9 +234,17 @@ class Reader:
                 return const(math.e)
             raise Unsupported(f'`{t}`')
         if isinstance(e, ast.Subscript):
-            if norm(e.value) == self.param and isinstance(
-                    e.slice, ast.Constant) and isinstance(e.slice.value, int):
-                return Lin({e.slice.value: 1})
+            if isinstance(e.slice, ast.Constant) and isinstance(
+                    e.slice.value, int):
+                base = self.ev(e.value) if not (
+                    isinstance(e.value, ast.Name)
+                    and e.value.id == self.param
+                    and self.param not in self.bound) else PARAMS
+                if base is PARAMS:
+                    return Lin({e.slice.value: 1})
+                if isinstance(base, list) and not _is_mat(base) and (
+                        -len(base) <= e.slice.value < len(base)):
+                    return base[e.slice.value]
             raise Unsupported(f'subscript `{norm(e)}`')
         if isinstance(e, ast.UnaryOp):
             v = self.ev(e.operand)
@@ -380,6 +414,31 @@ class Reader:
             return const(cmath.sqrt(c))
         if short in ('conj', 'conjugate') and not e.args:
             raise Unsupported('conjugation')
+        if fn in self.helpers and self.depth < 3 and not e.keywords:
+            # a straight-line helper of the same module: read its returned
+            # value with the formal parameters bound to the arguments
+            h = self.helpers[fn]
+            formals = [a.arg for a in h.args.args]  # type: ignore
+            vals = []
+            for a in e.args:
+                if isinstance(a, ast.Starred):
+                    sv = self.ev(a.value)
+                    if not isinstance(sv, list) or _is_mat(sv):
+                        raise Unsupported(f'call `{fn}`: starred argument')
+                    vals += sv
+                else:
+                    vals.append(self.ev(a))
+            if len(formals) != len(vals):
+                raise Unsupported(f'call `{fn}`: arity')
+            bound = {}
+            param = '\x00'
+            for name_, v in zip(formals, vals):
+                if v is PARAMS:
+                    param = name_
+                else:
+                    bound[name_] = v
+            sub = Reader(h, param, self.helpers, bound, self.depth + 1)
+            return sub.ev(_returned(h))
         raise Unsupported(f'call `{fn}`')
 
 
@@ -393,9 +452,11 @@ def _returned(fn: ast.AST) -> ast.expr:
     return rets[0].value
 
 
-def decide(u: ast.AST, g: ast.AST) -> tuple[int, list[str]]:
+def decide(u: ast.AST, g: ast.AST,
+           helpers: dict[str, ast.AST] | None = None,
+           ) -> tuple[int, list[str]]:
     """(number of entries compared, differences) or raises Unsupported."""
-    ur, gr = Reader(u), Reader(g)
+    ur, gr = Reader(u, helpers=helpers), Reader(g, helpers=helpers)
     U = ur.mat(ur.ev(_returned(u)))
     G = gr.ev(_returned(g))
     if not isinstance(G, list) or not G:
@@ -427,8 +488,12 @@ def rule_gradsym(ctx: Ctx, rep: Report, gates: list[ClassInfo],
         g = c.methods.get('get_grad')
         if u is None or g is None:
             continue
+        helpers = {
+            st.name: st for st in c.module.tree.body
+            if isinstance(st, ast.FunctionDef)
+        }
         try:
-            cnt, diffs = decide(u.node, g.node)
+            cnt, diffs = decide(u.node, g.node, helpers)
         except Unsupported as e:
             skipped.append(f'{c.name}: {e}')
             continue
